@@ -79,6 +79,10 @@ pub fn notable_values(key: &str, width: usize) -> Vec<u64> {
     v
 }
 
+/// dates with a meaning of their own in time keeping: Unix and GPS epochs, GPS week roll-overs,
+/// the turn of the millennium and its leap day, the end of 32-bit Unix time
+pub const EPOCH_DATES: [(u64, u64, u64); 10] = [(1970, 1, 1), (1980, 1, 6), (1999, 8, 21), (1999, 8, 22), (1999, 12, 31), (2000, 1, 1), (2000, 2, 29), (2019, 4, 6), (2019, 4, 7), (2038, 1, 19)];
+
 /// Corner sampler shared by the message-level checks: every field of a branch independently
 /// takes one of its notable values (3 in 4) or a random value; any coupling between a handful of
 /// fields at notable values is met many times over. `prop`: the property whose fields are owned.
@@ -113,6 +117,16 @@ pub fn corner_sampler(ctx: &Ctx, rep: &mut Report, pid: &str, prop: Prop, r: &mu
                     bits.put(f.start as usize, f.width as usize, *r.pick(nv));
                 }
             }
+            // one sample in eight carries a well-known date in its year / month / day fields
+            if r.chance(1, 8) {
+                let find = |k: &str| fs.iter().find(|f| f.key == k);
+                if let (Some(y), Some(m), Some(d)) = (find("year"), find("month"), find("day")) {
+                    let (yy, mm, dd) = *r.pick(&EPOCH_DATES);
+                    bits.put(y.start as usize, y.width as usize, yy);
+                    bits.put(m.start as usize, m.width as usize, mm);
+                    bits.put(d.start as usize, d.width as usize, dd);
+                }
+            }
             for (s, w, v) in b.force {
                 bits.put(*s, *w, *v);
             }
@@ -127,6 +141,9 @@ pub fn corner_sampler(ctx: &Ctx, rep: &mut Report, pid: &str, prop: Prop, r: &mu
 pub fn via_for(i: u64) -> Via {
     if i % 8 == 7 {
         return Via::Group;
+    }
+    if i % 8 == 5 {
+        return Via::Direct;
     }
     match i % 4 {
         0 | 1 => Via::Raw,
